@@ -252,28 +252,80 @@ WANTED = [
     ('M_AcceptAdd', ['MultiHash'], 'AcceptAdd', 0, 0),
     ('M_PrepareRemove', ['MultiHash'], 'PrepareRemove', 1, 0),
     ('M_RejectRemove', ['MultiHash'], 'RejectRemove', 0, 0),
+    ('M_Find', ['MultiHash'], 'Find', 2, 0),
+]
+
+
+def all_specs(objs, cls):
+    out = []
+    def walk(o):
+        if not isinstance(o, dict):
+            return
+        if o.get('kind') == 'ClassTemplateSpecializationDecl' and o.get('name') == cls and \
+                any(m.get('kind') in ('CXXMethodDecl', 'FunctionTemplateDecl') for m in o.get('inner', [])):
+            out.append(o)
+        if o.get('kind') in ('ClassTemplateDecl', 'NamespaceDecl', 'TranslationUnitDecl'):
+            for c in o.get('inner', []) or []:
+                walk(c)
+    for o in objs:
+        walk(o)
+    return out
+
+
+def find_method(specs, path, meth, arity, idx, must):
+    """the idx-th instantiated overload `meth` with `arity` parameters (whose dumped body mentions every string of `must`),
+    in the first specialization of the class that has one"""
+    seen = []
+    for spec in specs:
+        node = spec
+        try:
+            for p in path:
+                node = nested(node, p)
+        except TranslationError:
+            continue
+        ms = [m for m in methods_of(node, meth) if arity is None or len(params(m)) == arity]
+        seen += [len(params(m)) for m in methods_of(node, meth)]
+        if must:
+            ms = [m for m in ms if all(x in json.dumps(body_of(m)) for x in must)]
+        if len(ms) > idx:
+            return ms[idx]
+    raise TranslationError('%s::%s with %s parameters%s not found (instantiated overloads: %s)' %
+                           ('::'.join(path), meth, arity, ' mentioning %s' % must if must else '', seen))
+
+
+# DataTable<static column list>: (Coq name, method, arity, index, strings the body must mention)
+WANTED_TABLE = [
+    ('T_pvFill', 'pvFill', 2, 0, ['AddBackNogrow']),
+    ('T_pvSelect', 'pvSelect', 3, 0, ['GetFitUniqueHashIndex']),
 ]
 
 
 def translate(repo='/repo', wanted=None):
     objs = load(repo, 'DataIndexes')
-    spec = cxx2coq.find_spec(objs, {'class': 'DataIndexes'})
-    out = ['(* GENERATED by props/C07/proto2coq.py from inst_idx.cpp (DataIndexes<static column list, DataTraits>) -- do not edit *)',
+    specs = all_specs(objs, 'DataIndexes')
+    if not specs:
+        raise TranslationError('no specialization of DataIndexes in the AST dump')
+    out = ['(* GENERATED by props/C07/proto2coq.py from inst_idx.cpp (DataIndexes / DataTable over static column lists) -- do not edit *)',
            'From Coq Require Import String List ZArith.', 'From C07 Require Import ProtoSyntax.', 'Import ListNotations.',
            'Local Open Scope string_scope.', 'Local Open Scope Z_scope.', '']
-    for coqname, path, meth, arity, idx in (wanted or WANTED):
-        node = spec
-        for p in path:
-            node = nested(node, p)
-        ms = [m for m in methods_of(node, meth) if arity is None or len(params(m)) == arity]
-        if len(ms) <= idx:
-            raise TranslationError('%s::%s with %s parameters not found (instantiated overloads: %s)' %
-                                   ('::'.join(['DataIndexes'] + path), meth, arity, [len(params(m)) for m in methods_of(node, meth)]))
-        m = ms[idx]
+    for ent in (wanted or WANTED):
+        coqname, path, meth, arity, idx = ent[:5]
+        must = ent[5] if len(ent) > 5 else None
+        m = find_method(specs, path, meth, arity, idx, must)
         body = block(body_of(m))
         out.append('(* %s::%s(%s) *)' % ('::'.join(['DataIndexes'] + path), meth, ', '.join(params(m))))
         out.append('Definition %s_params : list string := %s.' % (coqname, lst([q(p) for p in params(m)])))
         out.append('Definition %s : list pstmt :=\n  %s.\n' % (coqname, lst(['\n   ' + s for s in body])))
+    if wanted is None:
+        tspecs = all_specs(load(repo, 'DataTable'), 'DataTable')
+        if not tspecs:
+            raise TranslationError('no specialization of DataTable in the AST dump')
+        for coqname, meth, arity, idx, must in WANTED_TABLE:
+            m = find_method(tspecs, [], meth, arity, idx, must)
+            body = block(body_of(m))
+            out.append('(* DataTable::%s(%s) *)' % (meth, ', '.join(params(m))))
+            out.append('Definition %s_params : list string := %s.' % (coqname, lst([q(p) for p in params(m)])))
+            out.append('Definition %s : list pstmt :=\n  %s.\n' % (coqname, lst(['\n   ' + s for s in body])))
     return '\n'.join(out) + '\n'
 
 
